@@ -21,6 +21,7 @@ fn main() {
             "C07" => vh::c07::check("C07"),
             "C08" => vh::c07::check("C08"),
             "C09" => vh::c09::check(),
+            "C16" => vh::c16::check(),
             "C10" => vh::c10::check(),
             _ => usage(),
         },
@@ -33,6 +34,7 @@ fn main() {
                 "c10" => vh::c10::child(idx),
                 "c06s" => vh::c06::child_s(idx),
                 "c05s" => vh::c05::child_s(idx),
+                "c16s" => vh::c16::child_s(idx),
                 _ => usage(),
             }
             0
@@ -49,6 +51,7 @@ fn main() {
                 "c10" => vh::c10::replay(r),
                 "c07" => vh::c07::replay(r),
                 "c05" | "c05s" => vh::c05::replay(r),
+                "c16h" | "c16s" => vh::c16::replay(r),
                 "c06h" | "c06s" => vh::c06::replay(r),
                 _ => usage(),
             }
